@@ -36,7 +36,16 @@
    and four that the code does not have (they make the remaining invariants non-vacuous and are
    the shape of the mutations tried on the real code): Unsorted, Truncate, RawStrings, and
      ScannerByLimit    AutoLoad makes room for the longest admitted value (limit + 1 bytes) instead of the
-                       longest admitted line (name "=" value): see LineRoom and BoundaryCases.   *)
+                       longest admitted line (name "=" value): see LineRoom and BoundaryCases.
+     StaleText         a map above the small-map size keeps the printed form it was last written as; giving a key
+                       it already has a new value does not discard that text (inserting / deleting a key does),
+                       and the copy every element assignment works on takes the text along: see `texts`, AsPrinted.
+
+   Session histories (scope "hist"): before the final save a session runs `todo`, a list of steps - its value is
+   printed / converted / saved (Show), an element is assigned or deleted, a binding is copied, the session ends
+   with an auto-save and the next one auto-loads.  `texts` is the "printed before" ghost: the containers of the
+   session whose printed form has been produced and is still theirs.  In the repaired design every change of a
+   container discards the texts of the containers it is part of, so what is saved is what the session holds.   *)
 EXTENDS Integers, Sequences, FiniteSets, TLC, Json, GrolValues
 
 CONSTANTS Dev,        \* subset of DevNames
@@ -48,13 +57,16 @@ CONSTANTS Dev,        \* subset of DevNames
 
 DevNames == {"FloatNoPoint", "MinIntLiteral", "NameForms", "QuoteEscapes", "ClosureNoEnv", "FuncOwnName",
              "LossyFuncPrint", "ExtUsage", "QuoteMultiLine", "ScannerLimit", "NamedFuncNoLimit",
-             "Unsorted", "Truncate", "RawStrings", "ScannerByLimit"}
-CodeDev  == DevNames \ {"Unsorted", "Truncate", "RawStrings", "ScannerByLimit"}
+             "Unsorted", "Truncate", "RawStrings", "ScannerByLimit", "StaleText"}
+CodeDev  == DevNames \ {"Unsorted", "Truncate", "RawStrings", "ScannerByLimit", "StaleText"}
 ASSUME Dev \subseteq DevNames
 HasDev(d) == d \in Dev
 
-VARIABLES globals, file, saved, phase, meta, limit
-vars == <<globals, file, saved, phase, meta, limit>>
+VARIABLES globals, file, saved, phase, meta, limit,
+          todo,       \* the steps of the session history that are still to run before the final save
+          texts,      \* ghost "printed before": sequence of <<path, value as printed>> (see the history section)
+          dirty       \* something was set since the session started from the file / auto-saved last
+vars == <<globals, file, saved, phase, meta, limit, todo, texts, dirty>>
 
 \* ------------------------------------------------------------------------------ values
 \* non-data kinds a global can hold
@@ -395,6 +407,147 @@ LoadWholeFrom(f, i, env) ==
 LoadWholeOf(f) ==
   IF \E i \in 1..Len(f) : ParseLine(f[i], <<>>).st = "parseerr" THEN <<>> ELSE LoadWholeFrom(f, 1, <<>>)
 
+\* ------------------------------------------------------------------------------ session histories
+(* What a session does before its final save.  A step is a record:
+     [op |-> "show", how, name]        the value of `name` is printed / converted / compared / saved (ShowWays)
+     [op |-> "assign", name, path, dot, fn, v, from, fpath]
+                                       name = .. (path = <<>>) or name[k] = .. / name.k = .. (path = <<k>>: the language
+                                       assigns one level deep only); the right side is the literal v (from = "") or a
+                                       read of another binding: from[fpath[1]][fpath[2]]..; fn: the assignment is made
+                                       from inside a function (the global is reached through the enclosing scope)
+     [op |-> "del", name, key]         del(name[key])
+     [op |-> "session"]                the session ends (auto-save); a fresh one auto-loads the file
+   A step that the language rejects (no such binding, index out of range) changes nothing.
+   Not modelled: which bindings share one container object after n = m (printing n does not mark m here).
+
+   `texts` holds <<path, value>>: path = <<Str(name), key, key, ..>> names a container inside a binding, value is what
+   its printed form - produced earlier in this session - shows.  Only the ways of PrintWays produce the printed form
+   (the save format); str / json / sprintf write other notations.                                             *)
+MapSmallMax == 4                                         \* object.MaxSmallMap: up to 4 pairs a map is stored inline
+Cached(v)   == v.t = "map" /\ Len(v.p) > MapSmallMax     \* the containers the StaleText rule is about
+PrintWays   == {"println", "print", "echo", "join", "save", "autosave"}
+ShowWays    == PrintWays \cup {"str", "json", "sprintf", "key", "eq", "len"}
+
+KeyEq(a, b)    == Cmp(a, b) = 0                          \* identity of keys (and of array indexes)
+PathEq(p, q)   == Len(p) = Len(q) /\ \A i \in 1..Len(p) : KeyEq(p[i], q[i])
+IsPrefix(p, q) == Len(p) <= Len(q) /\ \A i \in 1..Len(p) : KeyEq(p[i], q[i])
+RECURSIVE TextIdx(_, _, _)
+TextIdx(T, P, i) == IF i > Len(T) THEN 0 ELSE IF PathEq(T[i][1], P) THEN i ELSE TextIdx(T, P, i + 1)
+DropUnder(T, P)  == SelectSeq(T, LAMBDA e : ~IsPrefix(P, e[1]))      \* P and everything inside it
+DropAt(T, P)     == SelectSeq(T, LAMBDA e : ~PathEq(e[1], P))
+Graft(T, Q, P)   ==                                                   \* the texts inside Q, seen from P
+  LET S == SelectSeq(T, LAMBDA e : IsPrefix(Q, e[1])) IN
+  [i \in 1..Len(S) |-> <<P \o SubSeq(S[i][1], Len(Q) + 1, Len(S[i][1])), S[i][2]>>]
+RECURSIVE Flat(_, _)
+Flat(ss, i) == IF i > Len(ss) THEN <<>> ELSE ss[i] \o Flat(ss, i + 1)
+
+(* the value a printed form shows when printing starts at path P: a container whose text is known is not
+   printed again *)
+RECURSIVE AsPrinted(_, _, _)
+AsPrinted(P, v, T) ==
+  LET k == IF Cached(v) THEN TextIdx(T, P, 1) ELSE 0 IN
+  IF k > 0 THEN T[k][2]
+  ELSE CASE v.t = "arr" -> Arr([i \in 1..Len(v.e) |-> AsPrinted(Append(P, IntN(i - 1)), v.e[i], T)])
+         [] v.t = "map" -> Map([i \in 1..Len(v.p) |-> <<v.p[i][1], AsPrinted(Append(P, v.p[i][1]), v.p[i][2], T)>>])
+         [] OTHER       -> v
+(* the texts that printing v at P adds *)
+RECURSIVE NewTexts(_, _, _)
+NewTexts(P, v, T) ==
+  IF Cached(v) /\ TextIdx(T, P, 1) > 0 THEN <<>>
+  ELSE (IF Cached(v) THEN << <<P, AsPrinted(P, v, T)>> >> ELSE <<>>)
+       \o CASE v.t = "arr" -> Flat([i \in 1..Len(v.e) |-> NewTexts(Append(P, IntN(i - 1)), v.e[i], T)], 1)
+            [] v.t = "map" -> Flat([i \in 1..Len(v.p) |-> NewTexts(Append(P, v.p[i][1]), v.p[i][2], T)], 1)
+            [] OTHER       -> <<>>
+RECURSIVE ShowAll(_, _, _)
+ShowAll(g, i, T) == IF i > Len(g) THEN T ELSE ShowAll(g, i + 1, T \o NewTexts(<<Str(g[i][1])>>, g[i][2], T))
+
+(* what a save writes: the session's values - under StaleText, as their kept texts show them *)
+Seen(g, T) ==
+  IF HasDev("StaleText") THEN [i \in 1..Len(g) |-> <<g[i][1], AsPrinted(<<Str(g[i][1])>>, g[i][2], T)>>] ELSE g
+
+ArrIdx(v, k) == LET S == {i \in 1..Len(v.e) : IntN(i - 1) = k} IN IF S = {} THEN 0 ELSE CHOOSE i \in S : TRUE
+RECURSIVE ValAt(_, _, _)
+ValAt(v, path, i) ==            \* <<found, the value at path[i..] inside v>>
+  IF i > Len(path) THEN <<TRUE, v>>
+  ELSE CASE v.t = "arr" -> (LET k == ArrIdx(v, path[i]) IN IF k = 0 THEN <<FALSE, Nil>> ELSE ValAt(v.e[k], path, i + 1))
+         [] v.t = "map" -> (LET r == MapGet(v.p, path[i]) IN IF r[1] THEN ValAt(r[2], path, i + 1) ELSE <<FALSE, Nil>>)
+         [] OTHER       -> <<FALSE, Nil>>
+HasElem(c, k) == IF c.t = "arr" THEN ArrIdx(c, k) > 0 ELSE c.t = "map" /\ MapGet(c.p, k)[1]
+SetElem(c, k, nv) ==            \* <<done, c with element k = nv>>: arrays only at an index they have, maps also insert
+  CASE c.t = "arr" -> (LET i == ArrIdx(c, k) IN IF i = 0 THEN <<FALSE, c>> ELSE <<TRUE, Arr([c.e EXCEPT ![i] = nv])>>)
+    [] c.t = "map" -> <<TRUE, Map(MapSet(c.p, k, nv))>>
+    [] OTHER       -> <<FALSE, c>>
+
+(* one step: the bindings, the texts and `dirty` (something was set since the session auto-loaded / auto-saved last:
+   an auto-save that finds nothing set writes nothing, so it prints nothing) after it *)
+GT(g, T, d) == [g |-> g, T |-> T, d |-> d]
+StepApply(st, g, T, d, lim) ==
+  CASE st.op = "show" ->
+         (IF st.how = "save" THEN GT(g, ShowAll(g, 1, T), d)
+          ELSE IF st.how = "autosave" THEN (IF d THEN GT(g, ShowAll(g, 1, T), FALSE) ELSE GT(g, T, d))
+          ELSE LET k == EnvFind(g, st.name, 1) IN
+               IF k > 0 /\ st.how \in PrintWays THEN GT(g, T \o NewTexts(<<Str(st.name)>>, g[k][2], T), d) ELSE GT(g, T, d))
+    [] st.op = "assign" ->
+         (LET fk  == IF st.from = "" THEN 0 ELSE EnvFind(g, st.from, 1)
+              src == IF st.from = "" THEN <<TRUE, st.v>> ELSE IF fk = 0 THEN <<FALSE, Nil>> ELSE ValAt(g[fk][2], st.fpath, 1)
+              P   == <<Str(st.name)>> \o st.path
+              G   == IF st.from = "" THEN <<>> ELSE Graft(T, <<Str(st.from)>> \o st.fpath, P)
+              nk  == EnvFind(g, st.name, 1)
+          IN IF ~src[1] THEN GT(g, T, d)
+             ELSE IF st.path = <<>> THEN GT(Bind(g, st.name, src[2], 1), DropUnder(T, P) \o G, TRUE)
+             ELSE IF nk = 0 THEN GT(g, T, d)
+             ELSE LET c == g[nk][2]
+                      r == SetElem(c, st.path[1], src[2])
+                      keep == HasDev("StaleText") /\ HasElem(c, st.path[1])      \* the rule: an existing key keeps the text
+                  IN IF ~r[1] THEN GT(g, T, d)
+                     ELSE GT(Bind(g, st.name, r[2], 1),
+                             (IF keep THEN DropUnder(T, P) ELSE DropAt(DropUnder(T, P), <<Str(st.name)>>)) \o G, TRUE))
+    [] st.op = "del" ->
+         (LET nk == EnvFind(g, st.name, 1) IN
+          IF nk = 0 \/ g[nk][2].t # "map" THEN GT(g, T, d)
+          ELSE LET r == MapDel(g[nk][2].p, st.key) IN
+               IF ~r[1] THEN GT(g, T, d)
+               ELSE GT(Bind(g, st.name, Map(r[2]), 1), DropAt(DropUnder(T, <<Str(st.name), st.key>>), <<Str(st.name)>>), TRUE))
+    [] st.op = "session" -> GT(AutoLoadOf(SaveFile(Seen(g, T), lim), lim), <<>>, FALSE)
+
+\* the step as the input the real session gets
+RECURSIVE PathSrc(_, _)
+PathSrc(path, i) == IF i > Len(path) THEN "" ELSE Cat3("[", Printed(path[i]), StrCat("]", PathSrc(path, i + 1)))
+ShowSrc(how, name) ==
+  CASE how = "println" -> Cat3("println(", name, ")")
+    [] how = "print"   -> Cat3("print(", name, ")")
+    [] how = "echo"    -> name
+    [] how = "join"    -> Cat3("join([", name, "])")
+    [] how = "save"    -> "save()"
+    [] how = "str"     -> Cat3("str(", name, ")")
+    [] how = "json"    -> Cat3("json(", name, ")")
+    [] how = "sprintf" -> Cat3("sprintf(\"%v\",", name, ")")
+    [] how = "key"     -> Cat3("len({", name, ":1})")
+    [] how = "eq"      -> Cat3(name, "==", name)
+    [] how = "len"     -> Cat3("len(", name, ")")
+    [] OTHER           -> ""
+StepSrc(st) ==
+  CASE st.op = "show"   -> ShowSrc(st.how, st.name)
+    [] st.op = "assign" -> LET a == Cat3(StrCat(st.name, IF st.path = <<>> THEN "" ELSE IF st.dot THEN StrCat(".", st.path[1].v) ELSE PathSrc(st.path, 1)),
+                                         "=", IF st.from = "" THEN Printed(st.v) ELSE StrCat(st.from, PathSrc(st.fpath, 1)))
+                           IN IF st.fn THEN Cat3("func(){", a, "}()") ELSE a
+    [] st.op = "del"    -> Cat3("del(", StrCat(st.name, PathSrc(<<st.key>>, 1)), ")")
+    [] OTHER            -> ""
+StepJ(st) ==
+  [op   |-> IF st.op = "session" THEN "session" ELSE IF st.op = "show" /\ st.how = "autosave" THEN "autosave" ELSE "in",
+   src  |-> StepSrc(st),
+   echo |-> st.op = "show" /\ st.how = "echo"]
+
+Show(how, name)          == [op |-> "show", how |-> how, name |-> name]
+SetLit(name, k, v)       == [op |-> "assign", name |-> name, path |-> <<k>>, dot |-> FALSE, fn |-> FALSE, v |-> v, from |-> "", fpath |-> <<>>]
+SetDot(name, k, v)       == [op |-> "assign", name |-> name, path |-> <<k>>, dot |-> TRUE, fn |-> FALSE, v |-> v, from |-> "", fpath |-> <<>>]
+SetFn(name, k, v)        == [op |-> "assign", name |-> name, path |-> <<k>>, dot |-> FALSE, fn |-> TRUE, v |-> v, from |-> "", fpath |-> <<>>]
+SetRef(name, k, from)    == [op |-> "assign", name |-> name, path |-> <<k>>, dot |-> FALSE, fn |-> FALSE, v |-> Nil, from |-> from, fpath |-> <<>>]
+BindLit(name, v)         == [op |-> "assign", name |-> name, path |-> <<>>, dot |-> FALSE, fn |-> FALSE, v |-> v, from |-> "", fpath |-> <<>>]
+BindRef(name, from, fp)  == [op |-> "assign", name |-> name, path |-> <<>>, dot |-> FALSE, fn |-> FALSE, v |-> Nil, from |-> from, fpath |-> fp]
+DelKey(name, k)          == [op |-> "del", name |-> name, key |-> k]
+NextSession              == [op |-> "session"]
+
 \* ------------------------------------------------------------------------------ the value universe
 (* Everything the conformance harness feeds to the real code is defined here and emitted by TLC.
    A case is [id, src, api, env]: `src` is grol source evaluated first in the saving session (function
@@ -404,8 +557,9 @@ RECURSIVE MkEnvFrom(_, _, _)
 MkEnvFrom(ps, i, env) == IF i > Len(ps) THEN env ELSE MkEnvFrom(ps, i + 1, Bind(env, ps[i][1], ps[i][2], 1))
 MkEnv(ps) == MkEnvFrom(ps, 1, <<>>)
 Names(env) == [i \in 1..Len(env) |-> env[i][1]]
-DC(id, ps)      == [id |-> id, src |-> "", api |-> Names(MkEnv(ps)), env |-> MkEnv(ps)]
-SC(id, src, ps) == [id |-> id, src |-> src, api |-> <<>>, env |-> MkEnv(ps)]
+DC(id, ps)      == [id |-> id, src |-> "", api |-> Names(MkEnv(ps)), env |-> MkEnv(ps), steps |-> <<>>]
+SC(id, src, ps) == [id |-> id, src |-> src, api |-> <<>>, env |-> MkEnv(ps), steps |-> <<>>]
+HC(id, ps, st)  == [id |-> id, src |-> "", api |-> Names(MkEnv(ps)), env |-> MkEnv(ps), steps |-> st]   \* env: before the steps
 One(id, v)      == DC(id, << <<"a", v>> >>)
 
 S(bytes) == Str(StrFromBytes(bytes))
@@ -570,6 +724,106 @@ BoundaryCases(lim) ==
   LET all == [n \in 1..15 |-> <<((n - 1) \div 5) + 1, ((n - 1) % 5) + 1>>]
       ok  == SelectSeq(all, LAMBDA p : lim > 0 /\ BoundaryFits(lim, p[1], p[2]))
   IN [n \in 1..Len(ok) |-> BoundaryCase(lim, ok[n][1], ok[n][2])]
+
+(* Session histories (scope "hist"; "histall" adds the combinations left out of the quick tier).  One container `m`
+   of every kind and size class - arrays below / above the small-array size (8), maps below / at / above the
+   small-map size (4), keys of every type, containers inside containers - next to two plain bindings; every way of
+   producing a text from it (ShowWays, or none); every way of changing it afterwards: an element it has (first,
+   last; [k] and .k; from inside a function), a new key, a deleted key, the whole binding, an element of an inner container (the language
+   assigns one level deep, so: t = m[k]; t[k2] = v; m[k] = t), the inner container as a literal.  Shapes:
+     A  show, change                       B  change, show, change the same element again
+     C  show, change, show, change         I  show, new key, show, change an element (maps)
+     D1 show, next session, change         D2 show, change, next session
+     D3 change, next session, show, change D4 next session, show, change
+     E1 show, n = m, change m              E2 n = m, show n, change m                                         *)
+NewV     == Str("new")
+Big5     == MkMap(<< <<Str("a"), IntN(1)>>, <<Str("b"), IntN(2)>>, <<Str("c"), IntN(3)>>, <<Str("d"), IntN(4)>>, <<Str("e"), IntN(5)>> >>)
+Small2   == MkMap(<< <<Str("j"), IntN(2)>>, <<Str("k"), IntN(1)>> >>)
+Mixed7   == MkMap(<< <<IntN(1), Str("i")>>, <<Flt("3ff8000000000000"), Str("f")>>, <<Bool(TRUE), Str("b")>>, <<Nil, Str("n")>>,
+                     <<Str("s"), Str("s")>>, <<Arr(<<IntN(1)>>), Str("a")>>, <<MkMap(<< <<IntN(1), IntN(2)>> >>), Str("m")>> >>)
+\* [id, v, keys: elements it has (replaced), inner: <<key of an inner container, key inside it>>]
+HistVals == <<
+  [id |-> "arr3",       v |-> Arr(Ints(3)),   keys |-> <<IntN(0), IntN(2)>>, inner |-> <<>>],
+  [id |-> "arr9",       v |-> Arr(Ints(9)),   keys |-> <<IntN(0), IntN(8)>>, inner |-> <<>>],
+  [id |-> "map2",       v |-> Small2,         keys |-> <<Str("j"), Str("k")>>, inner |-> <<>>],
+  [id |-> "map4",       v |-> MkMap(KV(4)),   keys |-> <<IntN(1), IntN(4)>>, inner |-> <<>>],
+  [id |-> "map5",       v |-> Big5,           keys |-> <<Str("a"), Str("e")>>, inner |-> <<>>],
+  [id |-> "map12",      v |-> MkMap(KV(12)),  keys |-> <<IntN(1), IntN(12)>>, inner |-> <<>>],
+  [id |-> "mixed7",     v |-> Mixed7,         keys |-> <<Flt("3ff8000000000000"), Bool(TRUE), Nil, Arr(<<IntN(1)>>)>>, inner |-> <<>>],
+  [id |-> "big-in-small", v |-> MkMap(<< <<Str("in"), Big5>>, <<Str("z"), IntN(1)>> >>),
+                        keys |-> <<Str("z")>>, inner |-> << <<Str("in"), Str("b")>> >>],
+  [id |-> "big-in-big", v |-> MkMap(<< <<Str("a"), Big5>>, <<Str("b"), MkMap(KV(5))>>, <<Str("c"), IntN(3)>>, <<Str("d"), Arr(Ints(9))>>, <<Str("e"), Small2>> >>),
+                        keys |-> <<Str("c")>>, inner |-> << <<Str("a"), Str("e")>>, <<Str("b"), IntN(5)>>, <<Str("d"), IntN(8)>>, <<Str("e"), Str("k")>> >>],
+  [id |-> "small-in-big", v |-> MkMap(<< <<IntN(1), Small2>>, <<IntN(2), Arr(Ints(3))>>, <<IntN(3), Nil>>, <<IntN(4), Bool(FALSE)>>, <<IntN(5), Str("s")>> >>),
+                        keys |-> <<IntN(3)>>, inner |-> << <<IntN(1), Str("j")>>, <<IntN(2), IntN(1)>> >>],
+  [id |-> "big-in-arr", v |-> Arr(<<Big5, IntN(1), Arr(<<MkMap(KV(6))>>)>>),
+                        keys |-> <<IntN(1)>>, inner |-> << <<IntN(0), Str("a")>> >>],
+  [id |-> "maps-in-arr9", v |-> Arr([i \in 1..9 |-> IF i = 9 THEN Big5 ELSE IF i = 1 THEN Small2 ELSE IntN(i)]),
+                        keys |-> <<IntN(4)>>, inner |-> << <<IntN(8), Str("c")>>, <<IntN(0), Str("k")>> >>] >>
+
+IsIdentKey(k) == k.t = "str" /\ StrLen(k.v) > 0 /\ IsLetterB(At(k.v, 1)) /\ SkipIdent(k.v, 1) = StrLen(k.v) + 1
+ElemOf(c, k)  == ValAt(c, <<k>>, 1)[2]
+\* the changes of an element the container has (the shape the StaleText rule is about) ..
+ReplaceMods(c) ==
+  [i \in 1..Len(c.keys) |-> <<SetLit("m", c.keys[i], NewV)>>]
+  \o (IF IsIdentKey(c.keys[1]) THEN << <<SetDot("m", c.keys[1], IntN(70))>> >> ELSE <<>>)
+  \o [i \in 1..Len(c.inner) |-> <<BindRef("t", "m", <<c.inner[i][1]>>), SetLit("t", c.inner[i][2], NewV), SetRef("m", c.inner[i][1], "t")>>]
+  \o << <<SetFn("m", c.keys[Len(c.keys)], IntN(71))>> >>          \* from inside a function
+\* .. and the other changes
+OtherMods(c) ==
+  (IF c.v.t = "map" THEN << <<SetLit("m", Str("zz"), IntN(0))>>, <<DelKey("m", c.keys[1])>>, <<DelKey("m", Str("zz"))>> >> ELSE << <<SetLit("m", IntN(99), NewV)>> >>)
+  \o << <<BindLit("m", SetElem(c.v, c.keys[1], NewV)[2])>> >>
+  \o [i \in 1..Len(c.inner) |-> <<SetLit("m", c.inner[i][1], SetElem(ElemOf(c.v, c.inner[i][1]), c.inner[i][2], NewV)[2])>>]
+  \o [i \in 1..Len(c.inner) |-> <<BindRef("t", "m", <<c.inner[i][1]>>), SetLit("t", c.inner[i][2], NewV)>>]     \* the copy changes, m does not
+Again(c)  == <<SetLit("m", c.keys[1], IntN(77))>>
+AllWays   == <<"println", "print", "echo", "join", "save", "autosave", "str", "json", "sprintf", "key", "eq", "len">>
+PrintSeqW == <<"println", "print", "echo", "join", "save", "autosave">>
+OtherSeqW == <<"str", "json", "sprintf", "key", "eq", "len">>
+FewWays   == <<"println", "autosave", "save">>
+Pick(ws, n) == ws[((n - 1) % Len(ws)) + 1]
+HEnv(c)   == << <<"a0", IntN(1)>>, <<"m", c.v>>, <<"z", Str("last")>> >>
+HId(c, shape, way, n) == Cat3(Cat3("hist:", c.id, ":"), Cat3(shape, ":", way), NumId(":", n))
+A(c, way, n, mod) == HC(HId(c, "A", way, n), HEnv(c), <<Show(way, "m")>> \o mod)
+(* the histories of container c (the ci-th).  all = TRUE is the full product.  all = FALSE is the quick selection:
+   every way that produces the printed form x the first change of an element it has; for every other combination one
+   way, taken in turn (by ci + n): the other changes of an element, two of the other ways, the other kinds of change,
+   and the longer shapes (B, C, I, D1, D3, E1, E2).                                                                  *)
+HistOf(c, ci, all) ==
+  LET rm == ReplaceMods(c)
+      om == OtherMods(c)
+      r1 == rm[1]
+      rl == rm[Len(rm)]
+      pw == IF all THEN PrintSeqW ELSE <<Pick(PrintSeqW, ci)>>
+      fw == IF all THEN AllWays ELSE <<Pick(FewWays, ci)>>
+  IN \* N: no text produced before the change
+     (IF all THEN [n \in 1..Len(rm) |-> HC(HId(c, "N", "none", n), HEnv(c), rm[n])]
+                  \o [n \in 1..Len(om) |-> HC(HId(c, "N", "none", Len(rm) + n), HEnv(c), om[n])]
+      ELSE << HC(HId(c, "N", "none", 1), HEnv(c), r1) >>)
+     \* A: show, change
+     \o (IF all THEN Flat([w \in 1..Len(AllWays) |-> [n \in 1..Len(rm) |-> A(c, AllWays[w], n, rm[n])]], 1)
+                     \o Flat([w \in 1..Len(AllWays) |-> [n \in 1..Len(om) |-> A(c, AllWays[w], Len(rm) + n, om[n])]], 1)
+         ELSE [w \in 1..Len(PrintSeqW) |-> A(c, PrintSeqW[w], 1, r1)]
+              \o [n \in 1..(Len(rm) - 1) |-> A(c, Pick(PrintSeqW, ci + n), n + 1, rm[n + 1])]
+              \o <<A(c, Pick(OtherSeqW, ci), 1, r1), A(c, Pick(OtherSeqW, ci + 3), 1, r1)>>
+              \o [n \in 1..Len(om) |-> A(c, Pick(FewWays, ci + n), Len(rm) + n, om[n])])
+     \o Flat([w \in 1..Len(pw) |->
+          << HC(HId(c, "B", pw[w], 1), HEnv(c), Again(c) \o <<Show(pw[w], "m")>> \o r1),
+             HC(HId(c, "C", pw[w], 1), HEnv(c), <<Show(pw[w], "m")>> \o r1 \o <<Show(pw[w], "m")>> \o rl) >>
+          \o (IF all THEN << HC(HId(c, "C", pw[w], 2), HEnv(c), <<Show(pw[w], "m")>> \o r1 \o <<Show(pw[w], "m")>> \o Again(c)) >> ELSE <<>>)
+          \o (IF c.v.t = "map" THEN << HC(HId(c, "I", pw[w], 1), HEnv(c), <<Show(pw[w], "m"), SetLit("m", Str("zz"), IntN(0)), Show(pw[w], "m")>> \o r1) >> ELSE <<>>)], 1)
+     \o Flat([w \in 1..Len(fw) |->
+          << HC(HId(c, "D1", fw[w], 1), HEnv(c), <<Show(fw[w], "m"), NextSession>> \o r1),
+             HC(HId(c, "D3", fw[w], 1), HEnv(c), Again(c) \o <<NextSession, Show(fw[w], "m")>> \o r1),
+             HC(HId(c, "E1", fw[w], 1), HEnv(c), <<Show(fw[w], "m"), BindRef("n", "m", <<>>)>> \o r1),
+             HC(HId(c, "E2", fw[w], 1), HEnv(c), <<BindRef("n", "m", <<>>), Show(fw[w], "n")>> \o r1) >>
+          \o (IF all THEN << HC(HId(c, "D2", fw[w], 1), HEnv(c), <<Show(fw[w], "m")>> \o r1 \o <<NextSession>>),
+                             HC(HId(c, "D4", fw[w], 1), HEnv(c), <<NextSession, Show(fw[w], "m")>> \o rl) >> ELSE <<>>)], 1)
+HistCases    == Flat([i \in 1..Len(HistVals) |-> HistOf(HistVals[i], i, FALSE)], 1)
+HistAllCases == Flat([i \in 1..Len(HistVals) |-> HistOf(HistVals[i], i, TRUE)], 1)
+\* the histories model-checked in the quick tier: one container of each kind (array, small map, large map, large map inside
+\* a small one, inside an array)
+HistMcVals   == SelectSeq(HistVals, LAMBDA c : c.id \in {"arr9", "map2", "map5", "big-in-small", "big-in-arr"})
+HistMcCases  == Flat([i \in 1..Len(HistMcVals) |-> HistOf(HistMcVals[i], i, FALSE)], 1)
 
 FuncCases == <<
   SC("fn:named-add", "func f(a,b){a+b}",
@@ -744,7 +998,10 @@ ScopeCases(s) ==
     [] s = "long"   -> LongCases
     [] s = "limit"  -> LimitCases
     [] s = "func"   -> FuncCases
-AllScopes == <<"mc", "int", "float", "byte", "str", "scalar", "arr", "map", "pair", "name", "long", "limit", "func">>
+    [] s = "hist"   -> HistCases
+    [] s = "histall" -> HistAllCases
+    [] s = "histmc" -> HistMcCases
+AllScopes == <<"mc", "int", "float", "byte", "str", "scalar", "arr", "map", "pair", "name", "long", "limit", "func", "hist", "histall", "histmc">>
 RECURSIVE ConcatScopes(_)
 ConcatScopes(i) ==
   IF i > Len(AllScopes) THEN <<>>
@@ -819,55 +1076,69 @@ CasesAt(lim) == Cases \o (IF "boundary" \in Scope THEN BoundaryCases(lim) ELSE <
 Init ==
   \E lim \in Limits : \E i \in 1..Len(CasesAt(lim)) :
     LET c == CasesAt(lim)[i] IN
-    /\ meta = [id |-> c.id, src |-> c.src, api |-> c.api]
+    /\ meta = [id |-> c.id, src |-> c.src, api |-> c.api, env0 |-> IF c.steps = <<>> THEN <<>> ELSE c.env, steps |-> c.steps]
     /\ globals = c.env
     /\ limit = lim
     /\ file = <<>> /\ saved = <<>> /\ phase = "fresh"
+    /\ todo = c.steps /\ texts = <<>> /\ dirty = TRUE
 
 EmitCase ==
   (EmitOn /\ phase = "fresh") =>
-    LET f  == SaveFile(globals, limit)
+    LET f  == SaveFile(Seen(globals, texts), limit)
         la == AutoLoadOf(f, limit)
         lw == LoadWholeOf(f)
         ra == SaveFile(la, limit)
         rw == SaveFile(lw, limit)
     IN EmitLine(ToJson([id |-> meta.id, src |-> meta.src, api |-> meta.api, lim |-> limit,
+                        \* a history: the bindings it starts from and its steps as inputs; env is what the session holds at the end
+                        env0 |-> EnvJ(meta.env0), steps |-> [i \in 1..Len(meta.steps) |-> StepJ(meta.steps[i])],
                         env |-> EnvJ(globals), n |-> Len(Written(globals, limit)), lines |-> LinesJ(f),
                         loadA |-> EnvJ(la), loadW |-> EnvJ(lw), resaveA |-> LinesJ(ra), resaveW |-> LinesJ(rw),
                         \* the model's own verdict for this case under Dev (compared with the real verdict, for diagnosis)
-                        mv |-> [one |-> OneLineOf(globals, limit, f) /\ SortedOf(f), skip |-> SkippedOf(globals, limit, f),
+                        mv |-> [one |-> OneLineOf(Seen(globals, texts), limit, f) /\ SortedOf(f), skip |-> SkippedOf(Seen(globals, texts), limit, f),
                                 rtA |-> RoundTripOf(globals, limit, la), rtW |-> RoundTripOf(globals, limit, lw),
                                 idemA |-> ra = f, idemW |-> rw = f]]))
 
-Save ==
-  /\ phase \in {"fresh", "loadedW", "loadedA"}
-  /\ file' = SaveFile(globals, limit)
+Step ==                   \* the session runs the next step of its history
+  /\ phase = "fresh" /\ todo # <<>>
+  /\ LET r == StepApply(Head(todo), globals, texts, dirty, limit) IN globals' = r.g /\ texts' = r.T /\ dirty' = r.d
+  /\ todo' = Tail(todo)
+  /\ UNCHANGED <<file, saved, phase, meta, limit>>
+
+Save ==                   \* what is written is what the session holds (under StaleText: what its kept texts show)
+  /\ phase \in {"fresh", "loadedW", "loadedA"} /\ todo = <<>>
+  /\ file' = SaveFile(Seen(globals, texts), limit)
   /\ saved' = globals
   /\ phase' = "saved"
-  /\ UNCHANGED <<globals, meta, limit>>
+  /\ texts' = <<>> /\ dirty' = FALSE        \* the ghosts are followed up to the final save
+  /\ UNCHANGED <<globals, meta, limit, todo>>
   /\ EmitCase
 
 LoadWhole ==              \* a fresh session runs load()
   /\ phase = "saved"
   /\ globals' = LoadWholeOf(file)
   /\ phase' = "loadedW"
-  /\ UNCHANGED <<file, saved, meta, limit>>
+  /\ UNCHANGED <<file, saved, meta, limit, todo, texts, dirty>>
 
 AutoLoadLineByLine ==     \* a fresh session auto-loads the file
   /\ phase = "saved"
   /\ globals' = AutoLoadOf(file, limit)
   /\ phase' = "loadedA"
-  /\ UNCHANGED <<file, saved, meta, limit>>
+  /\ UNCHANGED <<file, saved, meta, limit, todo, texts, dirty>>
 
-Cycle ==                  \* save, then load in a fresh session (either way), as one step
-  /\ phase = "fresh"
-  /\ LET f == SaveFile(globals, limit) IN
+Cycle ==                  \* save, then load in a fresh session (either way), as one step (MC only: GEN emits at Save)
+  /\ phase = "fresh" /\ todo = <<>> /\ ~EmitOn
+  /\ LET f == SaveFile(Seen(globals, texts), limit) IN
      /\ file' = f
      /\ saved' = globals
      /\ \E w \in BOOLEAN : /\ globals' = (IF w THEN LoadWholeOf(f) ELSE AutoLoadOf(f, limit))
                            /\ phase' = (IF w THEN "loadedW" ELSE "loadedA")
-  /\ UNCHANGED <<meta, limit>>
+  /\ texts' = <<>> /\ dirty' = FALSE
+  /\ UNCHANGED <<meta, limit, todo>>
 
-Next == Save \/ LoadWhole \/ AutoLoadLineByLine \/ Cycle
+\* GEN runs that only need the emitted cases stop at the final save (cfg: CONSTRAINT GenStop)
+GenStop == phase = "fresh"
+
+Next == Step \/ Save \/ LoadWhole \/ AutoLoadLineByLine \/ Cycle
 Spec == Init /\ [][Next]_vars
 =============================================================================
